@@ -91,8 +91,21 @@ def limit_gates(ga):
                 amount, limit = b, a
             if amount is None:
                 continue
-            out[(key, atoms_signature(amount))] = (d, limit)
+            k = (key, atoms_signature(amount))
+            ent = out.setdefault(k, {'d': d, 'limits': set(), 'unconditional': True})
+            ent['limits'].add(_limit_text(limit))
+            # unconditional: every path on which the line answers carries the negation of this very test
+            ctext = repr(c)
+            for q in d.paths:
+                if q.outcome.kind == 'ret' and not any(repr(g[0]) == ctext and g[1] != pol for g in q.guards):
+                    ent['unconditional'] = False
     return out
+
+
+def _limit_text(limit):
+    if isinstance(limit, E):
+        return atoms_signature(limit)
+    return repr(float(limit)) if isinstance(limit, (int, float)) and not isinstance(limit, bool) else repr(limit)
 
 
 def atoms_signature(e):
@@ -169,12 +182,23 @@ def check(tree, rep, tier='quick', seed=0):
         # ---- limit gates
         lg = limit_gates(ga)
         have = {(f'{k[0][0]}.{k[0][1]}', k[1]) for k in lg}
+        lgk = {(f'{k[0][0]}.{k[0][1]}', k[1]): v for k, v in lg.items()}
         for g in data.get('limit_gates', []):
             if g['year'] != y:
                 continue
             n_l += 1
-            rep.ob('R9.3', f'{y}/{g["line"]}/{g["amount"]}', (g['line'], g['amount']) in have,
-                   f'{y} {g["line"]} no longer refuses when {g["amount"]} exceeds its implemented limit ({g.get("what", "")})', '')
+            ent = lgk.get((g['line'], g['amount']))
+            if ent is None:
+                rep.ob('R9.3', f'{y}/{g["line"]}/{g["amount"]}', False,
+                       f'{y} {g["line"]} no longer refuses when {g["amount"]} exceeds its implemented limit ({g.get("what", "")})', '')
+                continue
+            ok_l = sorted(ent['limits']) == sorted(g.get('limits', []))
+            ok_u = ent['unconditional'] or not g.get('unconditional', False)
+            rep.ob('R9.3', f'{y}/{g["line"]}/{g["amount"]}', ok_l and ok_u,
+                   (f'{y} {g["line"]} now refuses when {g["amount"]} exceeds {sorted(ent["limits"])}; the implemented limit was {g.get("limits")}: amounts between the two are no longer refused (or refused needlessly)'
+                    if not ok_l else
+                    f'{y} {g["line"]} used to refuse whenever {g["amount"]} exceeds its limit; now some path answers without having tested it: the refusal depends on a further condition'),
+                   ent['d'].where)
         if tier == 'thorough':
             known = {(g['atom'], g['affirmative']) for g in frozen.get(y, [])}
             for atom, val, mode, cl in infer(ga, skip=known | not_gates):
@@ -214,6 +238,7 @@ def regenerate():
         ga = GateAnalysis(an, y)
         for atom, val, mode, cl in infer(ga, skip=not_gates):
             gates.append({'year': y, 'atom': atom, 'affirmative': val, 'mode': mode, 'readers': sorted('.'.join(k) for k, (c, _) in cl.items() if c == 'S1')})
-        for (k, amt), (d, limit) in sorted(limit_gates(ga).items(), key=lambda t: (t[0][0], t[0][1])):
-            limits.append({'year': y, 'line': f'{k[0]}.{k[1]}', 'amount': amt, 'what': f'limit {limit!r}'})
+        for (k, amt), ent in sorted(limit_gates(ga).items(), key=lambda t: (t[0][0], t[0][1])):
+            limits.append({'year': y, 'line': f'{k[0]}.{k[1]}', 'amount': amt, 'what': 'limit ' + ' / '.join(sorted(ent['limits'])),
+                           'limits': sorted(ent['limits']), 'unconditional': ent['unconditional']})
     return {'gates': gates, 'limit_gates': limits, 'not_gates': old.get('not_gates', [])}
